@@ -1,10 +1,10 @@
 import NetVerif.Proofs.Lemmas.SendWin
-import NetVerif.Proofs.Lemmas.Flow
+import NetVerif.Proofs.Lemmas.SendWinFlow
 /-! Refinement: every wire trace produced by the mechanism model `Send` (server and client role) is
 accepted by the monitor `Mon`. The simulation relation is "the endpoint's own counters never exceed
 the peer's view", together with the int32 range facts that make `outflow.add/take` exact. -/
 namespace NetVerif.Proofs.SendWin
-open NetVerif.Model.SendWin NetVerif.Model.Flow NetVerif.Proofs.Flow
+open NetVerif.Model.SendWin NetVerif.Model.Flow NetVerif.Proofs.SendWinFlow
 
 /-- per-stream part of the simulation relation (`iw` = current initial window) -/
 def StrInv (iw : Int) : Option Int → Option Int → Prop
